@@ -128,6 +128,7 @@ class E3Check(Check):
         "time_range_absolute_bounds", "compute_plot_optional_args",
         "built_from_all_three", "align_checked_against_independent_umeyama",
         "built_from_pose_ndarray", "merge_with_shared_stamps",
+        "merge_of_dict_view", "compute_plot_result",
     )
 
     def setup_worker(self):
